@@ -63,6 +63,13 @@ func (it *Interp) Run(prog string) Result {
 	calls := strings.Split(prog, ";")
 	for i, c := range calls {
 		it.res.Tokens = append(it.res.Tokens, it.call(i, c))
+		// an error raised by a call that does not return it is attributed to that call
+		func() {
+			defer func() { recover() }()
+			if err := it.w.Err(); err != nil {
+				it.errTok(i, err)
+			}
+		}()
 	}
 	return it.res
 }
@@ -80,7 +87,7 @@ func (it *Interp) call(idx int, c string) (tok string) {
 	if i := strings.IndexByte(op, '@'); i >= 0 {
 		k, err := strconv.Atoi(op[i+1:])
 		if err != nil || k < 0 || k >= len(it.handles) {
-			return "bad-handle"
+			return "bad-op"
 		}
 		h = it.handles[k]
 		op = op[:i]
